@@ -6,7 +6,7 @@ HARNESSES = [
   H('aggr_bound%d' % nr, 'c', 'harness/C02/h_aggrinit.c', repo_srcs=['src/exp2cxx/classes_type.c'], defs={'BOUNDNR': nr}, unwind=60, object_bits=10, cflags=['-I/repo/src/exp2cxx', '-fno-builtin'],
     bounds='AGGRprint_bound for bound %d: resolved bound in {integer literal 0..99, "?", non-literal reference with arbitrary pointer payload}; second run with a different payload' % nr,
     stubs=['fprintf: structured capture (statement recognised by its format literal, integer and first bytes of string arguments recorded)', 'EXPRto_string: fixed text', 'Type_* globals: harness objects'],
-    out_of_claim='run-time bounds (attribute references), UNIQUE/OPTIONAL element flags and everything reached through TYPEget_* (a CBMC front-end quirk with the Scope_ union, see DESIGN.md), entity/attribute descriptors, that the emitted C++ compiles') for nr in (1, 2)
+    out_of_claim='run-time bounds (attribute references), entity/attribute descriptors, that the emitted C++ compiles (flags and the full initialiser: aggr_init)') for nr in (1, 2)
 ] + [
   H('aggr_init', 'c', 'harness/C02/h_aggrfull.c', repo_srcs=['src/exp2cxx/classes_type.c'], unwind=60, object_bits=10, cflags=['-I/repo/src/exp2cxx', '-fno-builtin'], shadow_scope=True,
     bounds='AGGRprint_init on one aggregate type: lower bound literal 0..99, upper bound in {literal 0..99, "?", non-literal reference (arbitrary pointer payload, result type unset/INTEGER/other), absent}, UNIQUE/OPTIONAL symbolic; second copy at other addresses',
@@ -15,8 +15,8 @@ HARNESSES = [
 ]
 JOBS = 6
 MANIFEST = {
-  'level_text': 'Bounded model checking of the aggregate-bound emission kernel of the C++ generator: for every resolved bound (any literal value, "?", any non-literal with arbitrary pointer payload) the emitted dictionary initialiser carries the declared value under the right bound number, or the expression text -- never a number that is not in the schema. Only this kernel is claimed; the rest of the dictionary emission (entities, attributes, enumerations, selects) is outside.',
-  'level_note': 'Trusted: CBMC, structured fprintf capture. This is a deliberately narrow claim: ENTITYincode_print / TYPEprint_* could not be driven soundly (CBMC mis-resolves accesses through the Scope_ union in harness-built types; measured, see DESIGN.md).',
-  'technique': 'CBMC bounded model checking of goto-cc-compiled classes_type.c (AGGRprint_bound) with symbolic bound expressions and structured output capture',
-  'design_ref': 'DESIGN.md section 3, C02',
+  'level_text': 'Bounded model checking of the aggregate emission kernels of the C++ generator (AGGRprint_bound, AGGRprint_init): for every resolved bound (any literal value, "?", any non-literal with arbitrary pointer payload) the emitted dictionary initialiser carries the declared value under the right bound number, or the expression text -- never a number that is not in the schema; SetBound1/SetBound2 appear exactly for the bounds present, UniqueElements(LTrue) iff UNIQUE and OptionalElements(LTrue) iff OPTIONAL. Only these kernels are claimed; the rest of the dictionary emission (entities, attributes, enumerations, selects) is outside.',
+  'level_note': 'Trusted: CBMC, structured fprintf capture, hand-built type objects, shadow express headers (Scope_.u as a struct: work-around for a CBMC simplifier bug, see DESIGN.md section 1; native replay uses the real headers). Outside: ENTITYincode_print, attribute descriptors, enumerations, selects, run-time bounds, that the output compiles.',
+  'technique': 'CBMC bounded model checking of goto-cc-compiled classes_type.c (AGGRprint_bound, AGGRprint_init) with symbolic bound expressions and flags and structured output capture',
+  'design_ref': 'DESIGN.md section 2, C02',
 }
